@@ -48,7 +48,7 @@ class FloorSim:
         big = tier == 'thorough'
         world = worldgen.gen_world(rng, max_n=4 if big else 3, max_faces=8 if big else 5, max_vars=4, with_time=rng.random() < 0.8,
                                    allow_holes=False, materialise=rng.choice(['memory', 'memory', 'file', 'chunked', 'chunked_auto', 'chunked_auto']), min_vars=2)
-        worldgen.add_depths(rng, world, max_layers=5 if big else 4)
+        worldgen.add_depths(rng, world, max_layers=5 if big else 4, boundary_layers=0.06)
         if rng.random() < 0.15:
             # a static variable that holds no data at all (a field the model did not write), after an ordinary variable on
             # the same layers and grid: it must come out all-missing and must not disturb the others
